@@ -27,6 +27,13 @@ def AttrConsistent (W : World) : Prop :=
   ∀ b1 ∈ W.levels.flatten, ∀ b2 ∈ W.levels.flatten, b1.attr = b2.attr →
     b1.iface = b2.iface ∧ b1.pname = b2.pname
 
+/-- The theorems speak about properties declared with one of the 14 signatures whose typing the model
+mirrors and proves: the 12 basic types, `as`, `v` (`declarable`).  Properties of other container types are
+handled by the model through the shared codec model (C01/C02) and compared with the code by the harness,
+but no theorem is claimed for them. -/
+def Modelled (W : World) : Prop :=
+  ∀ b ∈ W.levels.flatten, declarable b.iprop.sig = true
+
 /-- What the theorems need of the code: an injective storage key and the three repaired behaviours. -/
 structure Cfg.Sound (cfg : Cfg) : Prop where
   key_inj : ∀ i p i' p', cfg.key i p = cfg.key i' p' → i = i' ∧ p = p'
